@@ -12,7 +12,7 @@ func baseWeights() map[string]int {
 		"burn_regen": 2, "unimplemented": 1, "bank_send": 8,
 		"basket_create": 4, "put": 14, "take": 12, "basket_fee": 2, "update_curator": 2, "update_date_criteria": 3,
 		"sell": 14, "update_sell": 10, "cancel_sell": 5, "buy": 16, "basket_token_market": 4, "allowed_denom": 3, "fee_params": 3, "fee_pool_send": 3,
-		"anchor": 3, "attest": 3, "define_resolver": 2, "register_resolver": 3, "resolver_combo": 1, "class_combo": 1, "creator_combo": 1, "batch_combo": 2, "market_combo": 2, "prefix_project": 1, "prefix_basket": 1, "sell_all_then_buy": 2,
+		"anchor": 3, "attest": 3, "define_resolver": 2, "register_resolver": 3, "resolver_combo": 1, "class_combo": 1, "creator_combo": 1, "batch_combo": 2, "market_combo": 2, "prefix_project": 1, "prefix_basket": 1, "basket_combo": 1, "sell_all_then_buy": 2,
 	}
 }
 
@@ -31,7 +31,7 @@ func ProfileFor(prop string) Profile {
 		p := tilt("basket-heavy", map[string]int{"put": 4, "take": 4, "basket_create": 2, "update_date_criteria": 4, "bank_send": 3, "create_batch": 2, "sell": 0, "update_sell": 0, "cancel_sell": 0, "buy": 0, "anchor": 0, "attest": 0, "define_resolver": 0, "register_resolver": 0, "resolver_combo": 0})
 		p.Weights["sell"], p.Weights["buy"], p.Weights["update_sell"], p.Weights["cancel_sell"] = 4, 4, 2, 1
 		p.Weights["basket_token_market"], p.Weights["fee_params"] = 14, 6
-		p.Weights["prefix_basket"], p.Weights["prefix_project"] = 6, 3
+		p.Weights["prefix_basket"], p.Weights["prefix_project"], p.Weights["basket_combo"] = 6, 3, 6
 		p.Boundary = 0.5
 		return p
 	case "C06", "C07", "C12":
